@@ -712,7 +712,10 @@ func runC20(c *h.Ctx, idx int, events bool) {
 				c.Violate("events/ran-for-unsubscribed-event", fmt.Sprintf("after %s %s the task ran %dx with %s, but that event type is not subscribed (%v)", op.Kind, op.Path, n, l, subs), cas)
 			} else if refTotal[l] == 0 {
 				c.Violate("events/ran-for-unobserved-path-or-event", fmt.Sprintf("after %s %s the task ran with %s; the reference observer never saw such an event (this operation: %v)", op.Kind, op.Path, l, evs), cas)
-			} else if runTotal[l] > refTotal[l] {
+			} else if bound := refTotal[l] * map[bool]int{true: 2, false: 1}[strings.Contains(l, "name=[write]")]; runTotal[l] > bound {
+				// (the kernel merges identical events that are still unread in ONE observer's queue - the two
+				// modifications of a truncate-and-write may reach the reference observer as one and the watcher as
+				// two, so for writes the reference count is a lower bound of what happened, doubled here)
 				c.Violate("events/ran-more-often-than-events", fmt.Sprintf("after %s %s the task has run %dx with %s for %d events in total", op.Kind, op.Path, runTotal[l], l, refTotal[l]), cas)
 			}
 		}
